@@ -1,5 +1,7 @@
 """C19 — stochastic space assignment never loses, duplicates or starves a session."""
 import random
+
+import numpy as np
 import warnings
 
 from vlib import build, simrun
@@ -28,7 +30,7 @@ ANCHORS = [
 ]
 REQUIRED = ["calls:plugin", "calls:unplug", "calls:post_update", "walks", "placed_on_free_station", "enqueued", "admitted_from_queue",
             "departed_while_waiting", "early_departures", "late_unplug_of_early_leaver", "runs_completed", "replays_compared", "xproc_runs_compared", "energy_ledgers_checked",
-            "regime:early-on", "regime:early-off", "regime:more-sessions-than-stations", "regime:simultaneous-departure-connected-and-waiting",
+            "early_option_given_as:np", "early_option_given_as:int", "early_option_given_as:attr", "regime:early-on", "regime:early-off", "regime:more-sessions-than-stations", "regime:simultaneous-departure-connected-and-waiting",
             "distinct_station_choices"]
 BUDGET_S = {"quick": 240, "thorough": 3000}
 
@@ -64,7 +66,8 @@ def gen_history(rng):
     else:
         sd = {"kind": "scripted", "mr": 1, "seed": rng.randrange(1 << 30), "t0": 0, "mode": "full"}
     return {"period": rng.choice([1, 5, 15]), "network": {"stations": stations, "constraints": cons, "tol": None},
-            "sessions": sessions, "recompute": [], "scheduler": sd, "np_seed": 0, "early": rng.random() < 0.55}
+            "sessions": sessions, "recompute": [], "scheduler": sd, "np_seed": 0, "early": rng.random() < 0.55,
+            "early_as": rng.choice(["bool", "bool", "np", "int", "attr"])}
 
 
 def cases(seed, tier):
@@ -121,7 +124,17 @@ def fully_charged(ev):
 def monitored_run(d, rseed, obs, judge=True):
     from acnportal.contrib.acnsim.network.stochastic_network import StochasticNetwork
     random.seed(rseed)
-    sim, evs = build.build_sim(d, net_cls=StochasticNetwork, net_kw={"early_departure": d["early"]})
+    # the option arrives as the caller has it: a python bool, a numpy bool out of a parameter sweep, 0/1, or it is switched
+    # after construction through the public attribute
+    how = d.get("early_as", "bool")
+    flag = {"bool": bool, "np": np.bool_, "int": int}.get(how, bool)(d["early"])
+    if how == "attr":
+        sim, evs = build.build_sim(d, net_cls=StochasticNetwork, net_kw={"early_departure": not d["early"]})
+        sim.network.early_departure = d["early"]
+    else:
+        sim, evs = build.build_sim(d, net_cls=StochasticNetwork, net_kw={"early_departure": flag})
+    if obs is not None:
+        obs.ev("early_option_given_as:" + how)
     net = sim.network
     stations = list(net.station_ids)
     sh = Shadow(stations)
